@@ -80,6 +80,41 @@ func (l *Lowerer) call(ce *ast.CallExpr) ([]*Term, []types.Type) {
 				}
 				return []*Term{l.p.reg.sOff(s)}, []types.Type{types.Typ[types.Int]}
 			}
+		case "wgcount":
+			if l.spec {
+				sel, ok := ast.Unparen(ce.Args[0]).(*ast.SelectorExpr)
+				if !ok {
+					panic("wgcount expects x.waitGroupField")
+				}
+				pl := l.placeOfSelector(sel)
+				cnt := l.heapVar("F.$wg.count", "Int")
+				return []*Term{Select(cnt, l.opaqueAddr(pl))}, []types.Type{types.Typ[types.UntypedInt]}
+			}
+		case "it":
+			if l.spec {
+				saved := l.oldRename
+				l.oldRename = func(name string) string {
+					if strings.Contains(name, "@") {
+						return name
+					}
+					return name + "@it"
+				}
+				t, typ := l.tr(ce.Args[0])
+				l.oldRename = saved
+				return []*Term{t}, []types.Type{typ}
+			}
+		case "fresh":
+			if l.spec {
+				// allocated during the call / function: not below the allocation counter of the old state
+				v, _ := l.tr(ce.Args[0])
+				l.f.declare("$alloc", "Int")
+				name := "$alloc"
+				if l.oldFn != nil {
+					name = l.oldFn("$alloc")
+					l.f.declare(name, "Int")
+				}
+				return []*Term{Le(V(name, "Int"), v)}, []types.Type{types.Typ[types.Bool]}
+			}
 		case "lockheld":
 			if l.spec {
 				sel, ok := ast.Unparen(ce.Args[0]).(*ast.SelectorExpr)
@@ -860,6 +895,8 @@ func (l *Lowerer) callFunc(callee *types.Func, recv *Term, recvTyp types.Type, c
 	after := l.afterCall
 	l.afterCall = nil
 	ts, tys := l.callFunc1(callee, recv, recvTyp, ce)
+	after = append(after, l.afterCall...)
+	l.afterCall = nil
 	for _, f := range after {
 		f()
 	}
@@ -875,8 +912,7 @@ func (l *Lowerer) callSiteClauses(callee *types.Func, recv *Term, recvTyp types.
 	if top.contract == nil || top.contract.CallSites == nil || l.spec {
 		return
 	}
-	cls := top.contract.CallSites[callee.Name()]
-	if len(cls) == 0 {
+	if len(top.contract.CallSites[callee.Name()]) == 0 && len(top.contract.CallSiteMods[callee.Name()]) == 0 {
 		return
 	}
 	sig := callee.Type().(*types.Signature)
@@ -893,17 +929,92 @@ func (l *Lowerer) callSiteClauses(callee *types.Func, recv *Term, recvTyp types.
 			env["$"+n] = envEntry{args[i], atys[i]}
 		}
 	}
+	l.callSiteNamed(callee.Name(), env, ce)
+}
+
+// callSiteNamed: obligations (before) and ghost effects (registered to run after) that the enclosing
+// function's contract attaches to an operation: a call of `name`, or a channel send "send.<field>".
+func (l *Lowerer) callSiteNamed(name string, env map[string]envEntry, ce ast.Node) {
+	top := l.fr
+	for top.parent != nil {
+		top = top.parent
+	}
+	if top.contract == nil || l.spec {
+		return
+	}
+	cls := top.contract.CallSites[name]
 	for _, c := range cls {
+		if c.Kind != "callsite-requires" {
+			continue
+		}
 		savedPos := l.specPos
 		l.specPos = ce.Pos()
 		t := l.specTerm(c, env)
 		l.specPos = savedPos
-		lbl := callee.Name()
+		lbl := name
 		if c.Label != "" {
 			lbl += "." + c.Label
 		}
-		l.assertOb("callsite", lbl, "at every call of "+callee.Name()+": "+c.Src, ce, t, clausePropsOr(l.fr, c, l.curProps))
+		l.assertOb("callsite", lbl, "at every "+name+": "+c.Src, ce, t, clausePropsOr(l.fr, c, l.curProps))
 	}
+	// ghost effects attached to the call: applied after it
+	var effs []*Clause
+	for _, c := range cls {
+		if c.Kind == "callsite-effect" {
+			effs = append(effs, c)
+		}
+	}
+	mods := top.contract.CallSiteMods[name]
+	if len(effs) == 0 && len(mods) == 0 {
+		return
+	}
+	l.afterCall = append(l.afterCall, func() {
+		if l.cur == nil {
+			return
+		}
+		savedPos := l.specPos
+		l.specPos = ce.Pos()
+		l.callSnap++
+		suffix := fmt.Sprintf("@c%d", l.callSnap)
+		snapped := map[string]bool{}
+		oldFn := func(name string) string {
+			if strings.Contains(name, "@") {
+				return name
+			}
+			snapped[name] = true
+			return name + suffix
+		}
+		snapBlock, snapIdx := l.cur, len(l.cur.Stmts)
+		savedSpec := l.spec
+		l.spec = true
+		l.pushEnv(env)
+		for _, m := range mods {
+			l.havocItem(m, ce)
+		}
+		l.popEnv()
+		l.spec = savedSpec
+		for _, c := range effs {
+			l.assume(l.clauseTerm(c, env, oldFn))
+		}
+		l.specPos = savedPos
+		if len(snapped) > 0 {
+			var names []string
+			for n := range snapped {
+				names = append(names, n)
+			}
+			sort.Strings(names)
+			var ins []*Stmt
+			for _, n := range names {
+				srt := l.f.Vars[n]
+				l.f.declare(n+suffix, srt)
+				ins = append(ins, &Stmt{Kind: SAssign, Var: n + suffix, Sort: srt, E: V(n, srt)})
+			}
+			st := append([]*Stmt{}, snapBlock.Stmts[:snapIdx]...)
+			st = append(st, ins...)
+			st = append(st, snapBlock.Stmts[snapIdx:]...)
+			snapBlock.Stmts = st
+		}
+	})
 }
 
 func (l *Lowerer) callFunc1(callee *types.Func, recv *Term, recvTyp types.Type, ce *ast.CallExpr) ([]*Term, []types.Type) {
@@ -1379,6 +1490,26 @@ func (l *Lowerer) parseModItem(m string) []modItem {
 		return []modItem{{maps: true}}
 	case "":
 		return nil
+	case "$wg":
+		l.heapVar("F.$wg.count", "Int")
+		return []modItem{{heapVar: "F.$wg.count"}}
+	case "$chanclosed":
+		l.heapVar("F.$chan.closed", "Bool")
+		return []modItem{{heapVar: "F.$chan.closed"}}
+	}
+	if strings.HasPrefix(m, "map:") {
+		// the contents of one map object
+		e, err := parseSpec(strings.TrimPrefix(m, "map:"))
+		if err != nil {
+			panic(err)
+		}
+		t, typ := l.tr(e)
+		mt, ok := typ.Underlying().(*types.Map)
+		if !ok {
+			panic("modifies " + m + ": not a map")
+		}
+		dom, val, card := l.mapVarsPlain(mt)
+		return []modItem{{ref: t, heapVar: dom}, {ref: t, heapVar: val}, {ref: t, heapVar: card}}
 	}
 	if strings.HasSuffix(m, ".*") {
 		base := strings.TrimSuffix(m, ".*")
@@ -1445,7 +1576,13 @@ func (l *Lowerer) parseModItem(m string) []modItem {
 			})
 			return out
 		}
-		return []modItem{{ref: pl.ref, heapVar: l.fieldHeapName(pl.owner, pl.path)}}
+		hvn := l.fieldHeapName(pl.owner, pl.path)
+		saved := l.oldRename
+		l.oldRename = nil
+		l.heapVar(hvn, l.p.sortOf(pl.typ))
+		l.oldRename = saved
+		l.p.heapVarTypes[hvn] = pl.typ
+		return []modItem{{ref: pl.ref, heapVar: hvn}}
 	case pMap:
 		return []modItem{{maps: true}}
 	case pLocal:
@@ -1505,6 +1642,7 @@ func (l *Lowerer) havocItem(m string, node ast.Node) {
 		case it.heapVar != "" && it.ref != nil:
 			s := l.f.Vars[it.heapVar]
 			if s == "" {
+				l.unsupported(node, "modifies item names an undeclared heap variable "+it.heapVar)
 				continue
 			}
 			es := arrayElemSort(s)
@@ -1753,6 +1891,16 @@ func (l *Lowerer) externalCall(callee *types.Func, recv *Term, recvTyp types.Typ
 		return nil
 	case "(*sync.Mutex).Unlock", "(*sync.RWMutex).Unlock", "(*sync.RWMutex).RUnlock":
 		l.lockOp(recv, false, ce)
+		return nil
+	case "(*sync.WaitGroup).Add", "(*sync.WaitGroup).Done":
+		if recv != nil {
+			cnt := l.heapVar("F.$wg.count", "Int")
+			d := IntLit(-1)
+			if callee.Name() == "Add" && len(args) == 1 {
+				d = args[0]
+			}
+			l.assign(cnt.Name, cnt.Sort, Store(cnt, recv, Add(Select(cnt, recv), d)))
+		}
 		return nil
 	case "errors.New", "fmt.Errorf":
 		e := l.alloc()
